@@ -140,7 +140,8 @@ def gen_case(rng, args, consts=None):
                     v.append(cur)
                     cur += rng.choice([0, 0, 0, 1, 1, 2])
             elif "mask" in role or "mask" in lname:
-                v = [rng.randint(0, 1) for _ in range(L)]
+                # byte masks are "zero / non-zero": include non-canonical true values
+                v = [rng.choice([0, 0, 1, 1, 1, 2, -1, 127] if base == "int8_t" else [0, 1]) for _ in range(L)]
             elif "tags" in role or "tags" in lname:
                 v = [rng.randint(0, 2) for _ in range(L)]
             elif "index" in role or "index" in lname or "carry" in lname:
